@@ -351,6 +351,10 @@ func validateMin(v interface{}, param string) error {
 		if err != nil {
 			return err
 		}
+		if val.Kind() == reflect.Float32 {
+			// compare with the bound as a float32: 0.7 is not below 0.7
+			min = float64(float32(min))
+		}
 		if val.Float() >= min {
 			return nil
 		}
@@ -401,6 +405,10 @@ func validateMax(v interface{}, param string) error {
 		max, err := strconv.ParseFloat(param, 64)
 		if err != nil {
 			return err
+		}
+		if val.Kind() == reflect.Float32 {
+			// compare with the bound as a float32: 0.1 is not above 0.1
+			max = float64(float32(max))
 		}
 		if val.Float() <= max {
 			return nil
